@@ -7,11 +7,11 @@ ALL = [f"C{i:02d}" for i in range(1, 21)]
 CHECKS = {
  "C01": dict(level="proof", design="6/C01",
    text="Lean theorems (C01_galeShapley: termination, feasibility, no blocking pair, both orientations, every n, m, capacities) about an executable deferred-acceptance model; the model is tied to the Python code by differential runs (pair sets must be equal) and the direct blocking-pair oracle is evaluated on every implementation output.",
-   note="Trusted: Lean kernel + propext/Classical.choice/Quot.sound; the hand-written model (numpy argsort and heapq are modelled as sort-by-rank and remove-worst); adequacy of the model is checked by the correspondence run, which is differential testing.",
+   note="Trusted: Lean kernel + propext/Classical.choice/Quot.sound; the hand-written model (numpy argsort and heapq are modelled as sort-by-rank and remove-worst); adequacy of the model is checked by the correspondence run, which is differential testing. One instance per orientation needs more than 10 000 rounds and is beyond the compiled model's practical size: it is judged by the direct feasibility / blocking-pair oracle only and counted separately in the evidence.",
    technique="Lean 4 proof over an executable model + differential correspondence"),
  "C02": dict(level="proof", design="6/C02",
    text="Lean theorems: resident-optimality / -pessimality against an arbitrary stable matching, uniqueness, relabelling equivariance (C02_renumbering); correspondence = model pair set equality, brute-force enumeration of all stable matchings on small instances, relabelling metamorphic runs on the real code.",
-   note="Same trusted base as C01; brute force is the reference for 'all stable matchings' in the search for failing inputs.",
+   note="Same trusted base as C01; brute force is the reference for 'all stable matchings' in the search for failing inputs; one instance per orientation with a unique stable matching and more than 10 000 rounds is judged without the model (size).",
    technique="Lean 4 proof (invariant 'no achievable partner rejects') + differential correspondence"),
  "C04": dict(level="translation_validation", design="6/C04",
    text="scipy's solver is not modelled; every output is certified: exact rational Hungarian potentials from the harness are checked by the Lean-executable assignCertOk (sound by LP weak duality, C04_cert_sound), raises are certified by a Hall violator (hallCertOk_sound); for n <= 7 the value of the returned assignment must in addition equal the model's own brute-force optimum optAssign, which is PROVED to be the maximum over all acceptable permutations (C04_optAssign_spec, C04_brute_optimal, consistent with the certificate route: C04_cert_value_eq_opt), and the code must raise exactly when optAssign is infeasible; each call runs under a deadline.",
